@@ -217,7 +217,8 @@ class BuiltinMixin:
         if len(args) == 2 and all(isinstance(a.t, TInt) for a in args):
             a, b = args
             return SV(INT, z3.If((a.z >= b.z) if is_max else (a.z <= b.z), a.z, b.z))
-        if len(args) == 1 and isinstance(args[0].t, TList) and isinstance(args[0].t.elem, TInt):
+        if len(args) == 1 and isinstance(args[0].t, TList) and isinstance(args[0].t.elem, TInt) and not (
+                isinstance(args[0].extra, tuple) and args[0].extra and args[0].extra[0] == "listcomp"):
             s = args[0].z
             n = z3.Length(s)
             self.partial(st, n > 0, "ValueError", node)
@@ -229,7 +230,7 @@ class BuiltinMixin:
                 z3.ForAll([i], z3.Implies(z3.And(i >= 0, i < n), (s[i] <= r) if is_max else (s[i] >= r)))
             )
             return SV(INT, r)
-        if len(args) == 1 and isinstance(args[0].extra, tuple) and args[0].extra[0] == "setcomp":
+        if len(args) == 1 and isinstance(args[0].extra, tuple) and args[0].extra and args[0].extra[0] == "listcomp":
             return self.max_of_filter(args[0], st, node, is_max)
         raise EngineError("max/min form not modelled")
 
@@ -595,7 +596,17 @@ class BuiltinMixin:
     def lm_append(self, recv, args, kwargs, st, node):
         raise EngineError("list.append must be a statement on a local variable")
 
-    # -- dict (constant) ----------------------------------------------------
+    # -- dict ---------------------------------------------------------------
+    def dm_items(self, recv, args, kwargs, st, node):
+        if not isinstance(recv.t, TDict):
+            raise EngineError("items() of a constant dict")
+        return SV(CONST, None, None, extra=("dictitems", recv))
+
+    def dm_keys(self, recv, args, kwargs, st, node):
+        if not isinstance(recv.t, TDict):
+            raise EngineError("keys() of a constant dict")
+        return SV(TList(recv.t.k), recv.extra["keys"])
+
     def dm_get(self, recv, args, kwargs, st, node):
         if isinstance(recv.t, TDict):
             k = sym.coerce(args[0], recv.t.k)
